@@ -384,6 +384,182 @@ func (t *term) body() string {
 	return sb.String()
 }
 
+// ---------------------------------------------------------------------
+// Integer encoding: bit-vectors as mathematical integers in [0, 2^w) with
+// explicit wrap-around.  Exactly the same semantics as the bit-vector
+// encoding, but linear arithmetic over chains of 64-bit additions and
+// comparisons is decided in milliseconds where bit-blasting needs tens of
+// seconds.  Bitwise operations on two symbolic operands and symbolic shift
+// counts are not encodable (the path then ends as UNSUPPORTED).
+
+const intPreamble = `(define-fun bvwrap ((s Int) (m Int)) Int (ite (>= s m) (- s m) (ite (< s 0) (+ s m) s)))
+(define-fun tosigned ((x Int) (m Int)) Int (ite (>= (* 2 x) m) (- x m) x))
+(define-fun tdiv ((a Int) (b Int)) Int (ite (>= a 0) (ite (> b 0) (div a b) (- (div a (- b)))) (ite (> b 0) (- (div (- a) b)) (div (- a) (- b)))))
+(define-fun trem ((a Int) (b Int)) Int (- a (* b (tdiv a b))))`
+
+func pow2(w int) string {
+	switch w {
+	case 8:
+		return "256"
+	case 16:
+		return "65536"
+	case 32:
+		return "4294967296"
+	case 64:
+		return "18446744073709551616"
+	}
+	// generic
+	r := new(bigInt).pow2(w)
+	return r
+}
+
+type bigInt struct{}
+
+func (*bigInt) pow2(w int) string {
+	// decimal string of 2^w for small w via repeated doubling
+	digits := []byte{1}
+	for i := 0; i < w; i++ {
+		carry := byte(0)
+		for j := range digits {
+			d := digits[j]*2 + carry
+			digits[j] = d % 10
+			carry = d / 10
+		}
+		if carry > 0 {
+			digits = append(digits, carry)
+		}
+	}
+	out := make([]byte, len(digits))
+	for i := range digits {
+		out[len(digits)-1-i] = '0' + digits[i]
+	}
+	return string(out)
+}
+
+func (t *term) refInt() string {
+	switch t.op {
+	case "const":
+		if t.w == 0 {
+			if t.val == 1 {
+				return "true"
+			}
+			return "false"
+		}
+		return fmt.Sprintf("%d", t.val)
+	case "var":
+		return t.name
+	}
+	return fmt.Sprintf("t%d", t.id)
+}
+
+func sortOfInt(w int) string {
+	if w == 0 {
+		return "Bool"
+	}
+	return "Int"
+}
+
+// isPow2Mask reports whether v == 2^k - 1 and returns k.
+func isPow2Mask(v uint64) (int, bool) {
+	if v&(v+1) != 0 {
+		return 0, false
+	}
+	k := 0
+	for v != 0 {
+		k++
+		v >>= 1
+	}
+	return k, true
+}
+
+// bodyInt renders the defining expression of t in the integer encoding; ok is
+// false when t is not encodable.
+func (t *term) bodyInt() (string, bool) {
+	a := func(i int) string { return t.args[i].refInt() }
+	m := pow2(t.w)
+	switch t.op {
+	case "not", "and", "or", "ite", "=":
+		s := "(" + t.op
+		for i := range t.args {
+			s += " " + a(i)
+		}
+		return s + ")", true
+	case "bvult":
+		return "(< " + a(0) + " " + a(1) + ")", true
+	case "bvule":
+		return "(<= " + a(0) + " " + a(1) + ")", true
+	case "bvslt", "bvsle":
+		mm := pow2(t.args[0].w)
+		op := "<"
+		if t.op == "bvsle" {
+			op = "<="
+		}
+		return fmt.Sprintf("(%s (tosigned %s %s) (tosigned %s %s))", op, a(0), mm, a(1), mm), true
+	case "bvadd":
+		return fmt.Sprintf("(bvwrap (+ %s %s) %s)", a(0), a(1), m), true
+	case "bvsub":
+		return fmt.Sprintf("(bvwrap (- %s %s) %s)", a(0), a(1), m), true
+	case "bvneg":
+		return fmt.Sprintf("(bvwrap (- 0 %s) %s)", a(0), m), true
+	case "bvnot":
+		return fmt.Sprintf("(- (- %s 1) %s)", m, a(0)), true
+	case "bvmul":
+		return fmt.Sprintf("(mod (* %s %s) %s)", a(0), a(1), m), true
+	case "bvudiv":
+		return fmt.Sprintf("(div %s %s)", a(0), a(1)), true
+	case "bvurem":
+		return fmt.Sprintf("(mod %s %s)", a(0), a(1)), true
+	case "bvsdiv":
+		return fmt.Sprintf("(mod (tdiv (tosigned %s %s) (tosigned %s %s)) %s)", a(0), m, a(1), m, m), true
+	case "bvsrem":
+		return fmt.Sprintf("(mod (trem (tosigned %s %s) (tosigned %s %s)) %s)", a(0), m, a(1), m, m), true
+	case "bvand":
+		for i := 0; i < 2; i++ {
+			if c := t.args[i]; c.isConst() {
+				if k, ok := isPow2Mask(c.val); ok {
+					return fmt.Sprintf("(mod %s %s)", t.args[1-i].refInt(), pow2(k)), true
+				}
+			}
+		}
+		return "", false
+	case "bvshl":
+		if c := t.args[1]; c.isConst() {
+			if c.val >= uint64(t.w) {
+				return "0", true
+			}
+			return fmt.Sprintf("(mod (* %s %s) %s)", a(0), pow2(int(c.val)), m), true
+		}
+		return "", false
+	case "bvlshr":
+		if c := t.args[1]; c.isConst() {
+			if c.val >= uint64(t.w) {
+				return "0", true
+			}
+			return fmt.Sprintf("(div %s %s)", a(0), pow2(int(c.val))), true
+		}
+		return "", false
+	case "bvashr":
+		if c := t.args[1]; c.isConst() {
+			k := c.val
+			if k >= uint64(t.w) {
+				k = uint64(t.w) - 1
+			}
+			return fmt.Sprintf("(mod (div (tosigned %s %s) %s) %s)", a(0), m, pow2(int(k)), m), true
+		}
+		return "", false
+	case "extract":
+		if t.p2 == 0 {
+			return fmt.Sprintf("(mod %s %s)", a(0), m), true
+		}
+		return fmt.Sprintf("(mod (div %s %s) %s)", a(0), pow2(t.p2), m), true
+	case "zext":
+		return a(0), true
+	case "sext":
+		return fmt.Sprintf("(mod (tosigned %s %s) %s)", a(0), pow2(t.args[0].w), m), true
+	}
+	return "", false
+}
+
 // String renders a term fully inlined (for diagnostics / samples).
 func (t *term) String() string {
 	switch t.op {
